@@ -60,6 +60,20 @@ def simulatedQubitCalls : List (String × List String) := [
   ("remote_get_qubit", ["get_qubits_RI"])
 ]
 
+/-- `m ↦ remote_m` for every method name the tables above mention (Perspective Broker prefixes the name) -/
+def remoteName : List (String × String) := [
+  ("apply_H", "remote_apply_H"),
+  ("apply_K", "remote_apply_K"),
+  ("apply_S", "remote_apply_S"),
+  ("apply_T", "remote_apply_T"),
+  ("apply_X", "remote_apply_X"),
+  ("apply_Y", "remote_apply_Y"),
+  ("apply_Z", "remote_apply_Z"),
+  ("apply_rotation", "remote_apply_rotation"),
+  ("cnot_onto", "remote_cnot_onto"),
+  ("cphase_onto", "remote_cphase_onto")
+]
+
 structure Engine where
   name : String
   /-- `apply_*` methods the class defines -/
